@@ -114,7 +114,7 @@ def _case(tok: str, mode: str, k: int):
     return tok.upper() if k % 2 == 0 else tok.lower()
 
 
-SPLIT_STYLES = ("plain", "lead_amp", "comment_between", "blank_between")
+SPLIT_STYLES = ("plain", "lead_amp", "comment_between", "blank_between", "amp_comment")
 
 
 def render(stmts, lay: Layout = None) -> Rendered:
@@ -175,7 +175,8 @@ def render(stmts, lay: Layout = None) -> Rendered:
                             lines.append(lay.fixed_comment_char)
                         cur = "     " + lay.fixed_cont_char + indent + "  "
                     else:
-                        lines.append(cur + " &")
+                        # amp_comment: an ordinary trailing comment (itself containing '&') after the marker
+                        lines.append(cur + (" & ! cells in x & y" if style == "amp_comment" else " &"))
                         if style == "comment_between":
                             lines.append(indent + "  ! continuation comment")
                         elif style == "blank_between":
